@@ -36,6 +36,8 @@ func c08Fail(c *Ctx, sig string, detail string, replay interface{}) {
 		return
 	}
 	c.Fail(sig, detail, replay)
+	// on disk at once: a run that is killed (or that the watchdog ends) must not lose what it has found
+	c.oracle.Flush()
 }
 
 func hexOrDash(b []byte) string {
@@ -110,6 +112,8 @@ func c08Scan(path string, data []byte) (status string, recs []c08Rec, line strin
 	if c08ScanHung {
 		return "hang", nil, "skipped (an earlier scan never returned)"
 	}
+	c08MarkFor("scan-file", 40*time.Second) // the scan has its own 30 s limit below
+	defer c08Unmark()
 	t0 := time.Now()
 	defer func() {
 		// a scan of a few KB takes well under a millisecond; seconds mean the loop mis-parsed a length
@@ -236,15 +240,36 @@ func c08(c *Ctx) {
 	}
 	defer os.RemoveAll(base)
 	scanPath := filepath.Join(base, "scan.data")
+	wdDirs := []string{base}
 	// the byte-level sweep rewrites one small file ~20000 times: keep it on tmpfs when there is one
 	if shm, err := os.MkdirTemp("/dev/shm", "c08-"); err == nil {
 		defer os.RemoveAll(shm)
 		scanPath = filepath.Join(shm, "scan.data")
+		wdDirs = append(wdDirs, shm)
 	}
+	// every blocking call into the code under test runs under the watchdog (c08_watch.go): a call that does not
+	// come back becomes the failure c08/hang/<op-kind> and the run ends cleanly
+	c08WatchStart(c, nil, wdDirs...)
+	defer c08WatchStop()
+	c08Family("byte-level-sweep")
 
 	// development / replay aid: C08_ONLY=putcrash runs the bitcask-put-crash family alone
-	if os.Getenv("C08_ONLY") == "putcrash" {
-		c08PutCrashFamily(c, filepath.Dir(scanPath))
+	if only := os.Getenv("C08_ONLY"); only != "" {
+		c08Family(only)
+		c.Op("headlen", fmt.Sprintf("%d", store.RecordHeadLength)) // (an evidence file without any op confuses ./check)
+		switch only {
+		case "putcrash":
+			c08PutCrashFamily(c, filepath.Dir(scanPath))
+		case "queue":
+			c08QueueTie(c, filepath.Dir(scanPath))
+			c08RemnantFamily(c, filepath.Dir(scanPath))
+			c08RewindTie(c, filepath.Dir(scanPath))
+		case "overwrite":
+			c08OverwriteOracle(c, base)
+		case "oracles":
+			c08Oracles(c, base)
+		}
+		c08Family("end")
 		return
 	}
 
@@ -478,11 +503,16 @@ func c08(c *Ctx) {
 	if dir := filepath.Dir(scanPath); strings.HasPrefix(dir, "/dev/shm/") {
 		qbase = dir // thousands of tiny fsyncs: tmpfs
 	}
-	c08QueueTie(c, qbase)
-	c08RemnantFamily(c, qbase)
-	c08RewindTie(c, qbase)
+	c08Family("queue-tie")
+	c08Guard(c, "queue-tie", func() { c08QueueTie(c, qbase) })
+	c08Family("remnant")
+	c08Guard(c, "remnant", func() { c08RemnantFamily(c, qbase) })
+	c08Family("rewind-tie")
+	c08Guard(c, "rewind-tie", func() { c08RewindTie(c, qbase) })
+	c08Family("bitcask-put-crash")
 	c08PutCrashFamily(c, qbase) // crash images INSIDE BitCask.Put (c08_putcrash.go) vs LemoModel.Bitcask
 
 	// ---------- (b) direct oracles on the real store ----------
 	c08Oracles(c, base)
+	c08Family("end")
 }
